@@ -91,6 +91,7 @@ func genC14(seed uint64, r *Rng, idx, vecs int) *C14Case {
 	graph := idx / vecs
 	gr := NewRng(seed, strSeed("C14-graph"), uint64(graph))
 	cs := &C14Case{Cfg: genCfg(gr.Fork(71), 0)}
+	cs.Cfg.apply() // Source() during generation must already use this case's delimiters
 	depth := gr.Range(1, 3)
 	dirs := []string{}
 	for i := 0; i < depth; i++ {
